@@ -1,5 +1,6 @@
 """Visualise HUGR using graphviz."""
 
+import html
 from collections.abc import Iterable
 from dataclasses import dataclass, field
 
@@ -211,7 +212,7 @@ class DotRenderer:
         meta = hugr[node].metadata
         if len(meta) > 0:
             data = "<BR/><BR/>" + "<BR/>".join(
-                f"{key}: {value}" for key, value in meta.items()
+                html.escape(f"{key}: {value}") for key, value in meta.items()
             )
         else:
             data = ""
@@ -232,6 +233,8 @@ class DotRenderer:
             op_name = op.op_def().name
         else:
             op_name = op.name()
+        # the name goes into an HTML-like label
+        op_name = html.escape(op_name)
         if hugr.children(node):
             with graph.subgraph(name=f"cluster{node.idx}") as sub:
                 for child in hugr.children(node):
